@@ -245,3 +245,26 @@ def _nsmallest(ex, args, kwargs, node):
 def listref_len(ex, v):
   h = lheap(ex.ctx)
   return VInt(z3.Select(h['len'], v.ref))
+
+
+@lib('itertools.combinations',
+     'combinations(S, r): every element is an r-subset of S (as a tuple of '
+     'distinct members); r must be >= 0')
+def _combinations(ex, args, kwargs, node):
+  ctx = ex.ctx
+  src, r = args
+  sset = to_set(ex, src, node)
+  rt = num_term(ex.need_not_none(r, node, 'combinations r'))
+  ex.safety(rt >= 0, 'ValueError', node, 'combinations: r must be >= 0')
+  n = z3.Int(ctx.sym('n_comb'))
+  ctx.assume(n >= 0)
+
+  def elem(c, k):
+    e = z3.Const(c.sym('combo'), z3.SetSort(sset.esort))
+    c.assume(z3.IsSubset(e, sset.t))
+    c.assume(cardlemmas.card(e) == rt)
+    return VSet(e, sset.esort)
+
+  it = loopmod.VIter(n, elem)
+  it.comb = (sset, rt)
+  return it
